@@ -151,3 +151,52 @@ Theorem C01_loops_and_blocks_nullary_functions : forall n fn f v s',
   exists m, eval m (App (Val f) (Val vunit)) state0 = RVal v s'.
 Proof. exact lfunc_correct_nullary. Qed.
 Print Assumptions C01_loops_and_blocks_nullary_functions.
+
+(* Calls (Tr/MiniGoC.v: packages of first-order functions over uint64 and bool
+   that call each other and themselves, in any expression position).  trc_prog
+   is the list of values Coq reads from goose's output for the package, in the
+   order of the emitted file (checked syntactically on every run, together with
+   that order: every callee before its callers); cgo_body is Go's semantics of
+   the fragment with every function of the package in scope (checked against
+   the Go toolchain on every run).  For every package the translator model
+   accepts, every function of it, every argument vector and every returning
+   run of Go - through any depth of calls and recursion - the emitted value of
+   the function, applied to the arguments the way a caller applies it (to the
+   unit value when there are none), evaluates under the reference semantics
+   to the value Go returns. *)
+From GV Require Import Tr.MiniGoC Tr.MiniGoCProofs.
+
+Theorem C01_calls_meaning_preserved : forall P vs,
+  trc_prog P = Some vs ->
+  Forall2 (fun fn F => forall n args v s,
+             length args = length (cf_params fn) ->
+             cgo_body n P (rev (combine (cf_params fn) args)) (cf_body fn) = Some v ->
+             exists m, eval m (call_expr F args) s = RVal v s) P vs.
+Proof. exact prog_correct. Qed.
+Print Assumptions C01_calls_meaning_preserved.
+
+(* by name, as the harness calls the functions *)
+Theorem C01_calls_by_name : forall P vs n f args v,
+  trc_prog P = Some vs -> cgo_call n P f args = Some v ->
+  exists i fn F, nth_error P i = Some fn /\ cf_name fn = f /\ nth_error vs i = Some F /\
+    forall s, exists m, eval m (call_expr F args) s = RVal v s.
+Proof. exact call_correct. Qed.
+Print Assumptions C01_calls_by_name.
+
+(* inside a body: expressions with calls, argument lists and statement lists,
+   against any table of already emitted functions (the induction the two above
+   rest on) *)
+Theorem C01_calls_expressions_arguments_bodies : forall P n, PE P n /\ PA P n /\ PB P n.
+Proof. exact all_correct. Qed.
+Print Assumptions C01_calls_expressions_arguments_bodies.
+
+(* the hypotheses are satisfiable: a package with recursion (Gcd, Use), a
+   function without parameters and calls nested in arguments is accepted and
+   returns in Go; a package whose functions are not in dependency order has no
+   translation *)
+Theorem C01_calls_example :
+  (exists vs, trc_prog ex_prog = Some vs /\ length vs = 3%nat) /\
+  cgo_call 200 ex_prog "Use" [LitV (LitInt 48); LitV (LitBool true)] = Some (LitV (LitInt 8)) /\
+  cgo_call 200 ex_prog "Gcd" [LitV (LitInt 48); LitV (LitInt 18)] = Some (LitV (LitInt 6)).
+Proof. exact ex_prog_accepted_and_returns. Qed.
+Print Assumptions C01_calls_example.
